@@ -441,9 +441,9 @@ C04P_UnionRight(A, B) == (A.k = "union" /\ B.k # "union") => ((\E i \in 1..Len(A
 (***************************************************************************)
 CONSTANTS PMode,      \* "pairs" | "hist"
           PFlags,     \* name of the switch record the invariants are evaluated with: "real" | "skipabc" | "keyleft"
-          PNoDev,     \* a deviation class left out of InvPSound ("" = none): sensitivity self-test
+          PNoDev,     \* a deviation class left out of InvPSound ("" = none, "all" = every class): sensitivity self-test
           HistLen,    \* number of checks per history
-          HistSpace   \* "rec" (recursive family) | "all"
+          HistSpace   \* "rec" | "rec3" | "mid" | "all"
 
 F0 == CASE PFlags = "real" -> RealF
         [] PFlags = "skipabc" -> [RealF EXCEPT !.skipabc = TRUE]
@@ -462,9 +462,19 @@ SpaceB == CandTyped \cup CandKnown \cup ProtoTypes \cup UnionsB
 \* the recursive family: the only checks whose nested checks run under a recursion-guard assumption
 RecProtos == {Typed("PRec"), Typed("PQ1"), Typed("PQ2"), Typed("PAcc")}
 RecCands == {"KRec", "KRecBad", "KRecP", "KQ", "KQz", "KAccSelf", "KAccP", "KAccObj", "K_"}
-HistA == IF HistSpace = "rec" THEN RecProtos \cup {Typed("P1"), Generic("PG", <<TInt>>)} ELSE ProtoTypes \cup UnionsA
-HistB == IF HistSpace = "rec" THEN {Typed(c) : c \in RecCands \cup {"K_m", "Kgi", "Kgs"}} \cup {Known(PInst(c)) : c \in RecCands} \cup RecProtos
-         ELSE SpaceB
+\* "rec": the recursive family + two plain protocols; "rec3": its core (3-step histories); "mid": a cross-section of
+\* the whole space (simulation); "all": everything
+MidCands == {"K_", "K_m", "Kms", "K_mnk", "KP1x", "Kname", "KnameLen", "KPS", "KNoHash", "Kgi", "Kgs", "Kx", "Kxs", "Kxprops",
+             "KRec", "KRecBad", "KQ", "KQz", "KAccP", "Kcalls", "int"}
+HistA == CASE HistSpace = "rec" -> RecProtos \cup {Typed("P1"), Generic("PG", <<TInt>>)}
+           [] HistSpace = "rec3" -> RecProtos
+           [] OTHER -> ProtoTypes \cup UnionsA
+HistB == CASE HistSpace = "rec" -> {Typed(c) : c \in RecCands \cup {"K_m", "Kgi", "Kgs"}} \cup {Known(PInst(c)) : c \in RecCands} \cup RecProtos
+           [] HistSpace = "rec3" -> {Typed(c) : c \in {"KRec", "KRecBad", "KQ", "KQz", "KAccSelf", "KAccP"}}
+                                    \cup {Known(PInst("KQ")), Known(PInst("KRec")), Typed("PQ1"), Typed("PQ2")}
+           [] HistSpace = "mid" -> {Typed(c) : c \in MidCands} \cup {Known(PInst(c)) : c \in MidCands \ {"int"}}
+                                   \cup {Typed("P3"), Typed("PQ1"), Typed("PQ2"), Typed("PRec")} \cup UnionsB
+           [] OTHER -> SpaceB
 
 VARIABLES pstage, pa, pb, pcache, pcacheR, phist
 pvars == <<pstage, pa, pb, pcache, pcacheR, phist>>
@@ -487,8 +497,14 @@ PCheckStep ==
 PNext == (PChooseA \/ PChooseB \/ PCheckStep) /\ UNCHANGED vars
 
 PDone == pstage = "done"
-Devs0 == DevFlags \ {PNoDev}
+Devs0 == IF PNoDev = "all" THEN {} ELSE DevFlags \ {PNoDev}
 InvPSound == PDone => C04P_Sound(pa, pb, F0, Devs0)
+\* every deviation class is inhabited by an unsound acceptance that no other class explains (so none of them is vacuous
+\* and InvPSound without that class is violated)
+DevInhabited(f) == \E A \in SpaceA, B \in SpaceB :
+                       /\ ~PHasBare(A) /\ ~PHasBare(B) /\ AcceptF(A, B, RealF) /\ ~RefSound(A, B)
+                       /\ Dev_Of(f, A, B) /\ \A g \in DevFlags \ {f} : ~Dev_Of(g, A, B)
+InvPDevInhabited == pstage = "a" => \A f \in DevFlags : DevInhabited(f)
 InvPSoundRepaired == PDone => C04P_Sound(pa, pb, AllRepaired, {})      \* with every deviation repaired the model is sound
 InvPRefl == (pstage = "b" /\ (IsPT(pa) \/ pa.k = "union")) => C04P_Refl(pa)
 InvPUnionLeft == PDone => C04P_UnionLeft(pa, pb)
